@@ -447,7 +447,7 @@ class RaggedView2:
         elif stop < 0:
             stop = self.lengths+stop
 
-        mask = np.sign(stop-start) != np.sign(step) # start is higher than stop and step is not negative
+        mask = (stop <= start) if step > 0 else (stop >= start) # the slice runs against its step (compared, not subtracted: huge bounds must not overflow)
         mask |= (start < 0) & (step < 0) # start is before 0 and step is negative
         mask |= (start >= self.lengths) & (step > 0) # start is  after end and step is negative
         mask |= (stop <= 0) & (step > 0) # stop is before 0 and step is positive
@@ -482,7 +482,7 @@ class RaggedView2:
         else:
             stop = np.minimum(self.lengths, stop)
         return self.__class__(self.starts+self.col_step*start,
-                              np.maximum(0, (stop-start+(col_slice.step-1))//col_slice.step),
+                              np.maximum(0, (stop-start-1)//col_slice.step+1),
                               self.col_step*col_slice.step)
 
     def col_slice(self, col_slice):
